@@ -65,6 +65,7 @@ class REPEX_state:
             "keep_traj_fnames", []
         )
         # set rng
+        self.rgen_reset = False
         if "restarted_from" in config["current"]:
             self.set_rgen()
         else:
@@ -225,10 +226,15 @@ class REPEX_state:
         In case a crash, we pick lock locked from previous simulation.
         """
         if not self.locked0:
-            if "restarted_from" in self.config["current"]:
-                # get the same pick() as pre-restart. Need to set it again
-                # because current self.rgen was used for calculating self.prob.
-                self.set_rgen()
+            if "restarted_from" in self.config["current"] and self.rgen_reset:
+                # get the same pick() as pre-restart. Need to set the state
+                # again because current self.rgen was used for calculating
+                # self.prob. Only once, and without touching the spawn
+                # counter, or later jobs would repeat earlier streams.
+                self.rgen.bit_generator.state = self.config["current"][
+                    "rng_state"
+                ]
+                self.rgen_reset = False
             return self.pick()
 
         enss = []
@@ -247,7 +253,16 @@ class REPEX_state:
             self.print_pick(tuple(enss), tuple(trajs0), self.cworker)
         picked = {}
 
-        child_rng = spawn_rng(self.rgen)
+        # A re-issued job must not advance the spawn counter, which
+        # set_rgen() derives from cstep and the number of jobs in flight.
+        # Its streams are keyed by step and position instead; the last
+        # key element keeps them apart from the (job, ensemble, 0) keys
+        # of the engine streams.
+        seed_seq = np.random.SeedSequence(
+            entropy=self.config["simulation"]["seed"],
+            spawn_key=(self.cstep, len(self.locked) - 1, 1),
+        )
+        child_rng = type(self.rgen)(type(self.rgen.bit_generator)(seed_seq))
         for ens_num, inp_traj in zip(enss, trajs):
             ens_pick = self.ensembles[ens_num + 1]
             ens_pick["rgen"] = spawn_rng(child_rng)
@@ -402,12 +417,16 @@ class REPEX_state:
 
     def set_rgen(self):
         """Set numpy random generator state from restart."""
+        # one child has been spawned per issued job: the completed steps
+        # plus the jobs that were in flight when the file was written.
+        n_jobs = self.cstep + len(self.config["current"].get("locked", []))
         seed_sequence = np.random.SeedSequence(
             entropy=self.config["simulation"]["seed"],
-            n_children_spawned=self.cstep,
+            n_children_spawned=n_jobs,
         )
         self.rgen = default_rng(seed_sequence)
         self.rgen.bit_generator.state = self.config["current"]["rng_state"]
+        self.rgen_reset = True
 
     def loop(self):
         """Check and iterate loop."""
